@@ -241,6 +241,17 @@ class ExprMixin:
                     pass
                 finally:
                     self.cur = prev
+            if isinstance(val, ast.Call) and (dotted(val.func) or '').split('.')[-1] in ('attrgetter', 'itemgetter') and \
+                    all(isinstance(a_, ast.Constant) for a_ in val.args) and not val.keywords:
+                # NAME = operator.attrgetter('extent'): a callable that reads that attribute
+                prev, self.cur = self.cur, _ModuleScope(m, self.cur)
+                try:
+                    from .state import State
+                    return self._eval_module_value(val, State())
+                except Exception:
+                    pass
+                finally:
+                    self.cur = prev
             if isinstance(val, ast.Call) and (dotted(val.func) or '').split('.')[-1] == 'partial' and \
                     (dotted(val.func) or '').split('.')[0] in ('functools', 'partial'):
                 # NAME = functools.partial(f, ...) at module level: a callable bound once
